@@ -15,7 +15,7 @@ def declare(spec):
         # configuration the worker is started with (C13 / C07) and the psutil handle (C18)
         'working_dir': VAL, 'shell': VAL, 'env': VAL, 'use_fds': BOOL, 'executable': VAL,
         'pipe_stdout': BOOL, 'pipe_stderr': BOOL, '_sockets': VAL, 'cmd': VAL, '_worker': Ref('PsProc'),
-        'redirected': BOOL,
+        'redirected': BOOL, 'stdout': VAL, 'stderr': VAL,
     })
     spec.Class('PsProc', fields={'pid': INT})
     spec.Class('Redirector', qual='circus.stream.redirector:Redirector', fields={})
